@@ -48,6 +48,17 @@ Groups(r) ==
       [] r.fam = "matching"   -> MatchGroups(r.graph)
       [] r.fam = "subsetcard" -> SubsetCardGroups(r.graph)
       [] r.fam = "cliquecol"  -> CliqueColGroups(p.n, p.k, p.c)
+      [] r.fam = "tseitin"    -> TseitinGroups(r.graph)
+      [] r.fam = "kcolor"     -> KColorGroups(r.graph, p.k)
+      [] r.fam = "evencol"    -> EvenColGroups(r.graph)
+      [] r.fam = "domset"     -> DomGroups(r.graph, p.d)
+      [] r.fam = "tiling"     -> TilingGroups(r.graph)
+      [] r.fam = "iso"        -> IsoGroups(r.graph, r.graph2)
+      [] r.fam = "auto"       -> IsoGroups(r.graph, r.graph)
+      [] r.fam = "subgraph"   -> SubgraphGroups(r.graph, r.graph2)
+      [] r.fam = "kclique"    -> CliqueGroups(r.graph, p.k)
+      [] r.fam = "binclique"  -> BinCliqueGroups(r.graph, p.k)
+      [] r.fam = "ramlb"      -> << {<< >>}, CliqueGroups(r.graph, p.k)[1] >>
 
 \* Obj(r, V, a): the valuation that assignment a induces on the named
 \* variables (through table V) is an object of the documented kind.
@@ -68,6 +79,29 @@ Obj(r, V, a) ==
       [] r.fam = "subsetcard" -> SubsetCardObj(r.graph, p.eq, LAMBDA x, y : X2(1, x, y))
       [] r.fam = "cliquecol"  -> CliqueColObj(p.n, p.k, p.c, LAMBDA x, y : X2(1, x, y),
                                               LAMBDA x, y : X2(2, x, y), LAMBDA x, y : X2(3, x, y))
+      [] r.fam = "tseitin"    -> TseitinObj(r.graph, p.chmode, p.ch, LAMBDA x, y : X2(1, x, y))
+      [] r.fam = "kcolor"     -> KColorObj(r.graph, p.k, p.fun, LAMBDA x, y : X2(1, x, y))
+      [] r.fam = "evencol"    -> EvenColObj(r.graph, LAMBDA x, y : X2(1, x, y))
+      [] r.fam = "tiling"     -> TilingObj(r.graph, LAMBDA x : X1(1, x))
+      [] r.fam = "iso"        -> IsoObj(r.graph, r.graph2, LAMBDA x, y : X2(1, x, y))
+      [] r.fam = "auto"       -> AutoObj(r.graph, LAMBDA x, y : X2(1, x, y))
+      [] r.fam = "subgraph"   -> SubgraphObj(r.graph, r.graph2, p.induced, p.sb, LAMBDA x, y : X2(1, x, y))
+      [] r.fam = "kclique"    -> CliqueObj(r.graph, p.k, p.sb, LAMBDA x, y : X2(1, x, y))
+      [] r.fam = "binclique"  -> BinCliqueObj(r.graph, p.k, p.sb, LAMBDA x, y : X2(1, x, y))
+
+\* Families whose documented variables are more than the witness: the witness is
+\* a projection of the assignment.
+Mode(r) == CASE r.fam = "domset" -> "projection"
+             [] r.fam = "ramlb"  -> "satonly"
+             [] OTHER            -> "pointwise"
+Proj(r, V, a) ==
+    CASE r.fam = "domset" -> {v \in 1..r.graph.n : a[V[<<1, v>>]]}
+Witnesses(r) ==
+    CASE r.fam = "domset" -> DomWitnesses(r.graph, r.par.d)
+IsWitness(r, P) ==
+    CASE r.fam = "domset" -> IsDominating(r.graph, P) /\ Cardinality(P) <= r.par.d
+HasWitness(r) ==
+    CASE r.fam = "ramlb" -> HasClique(r.graph, r.par.k) \/ HasIndep(r.graph, r.par.s)
 
 -----------------------------------------------------------------------------
 (* Refusals.  A generator may (MayRefuse) or must (MustRefuse) answer       *)
@@ -75,8 +109,11 @@ Obj(r, V, a) ==
 MayRefuse(r) ==
     LET p == r.par IN
     CASE r.fam = "bphp" -> p.m < 1 \/ p.n < 1      \* "size of the domain/range must be > 0"
+      [] r.fam = "binclique" -> p.k < 1 \/ r.graph.n < 1
       [] OTHER -> FALSE
-MustRefuse(r) == FALSE
+MustRefuse(r) ==
+    CASE r.fam = "evencol" -> ~EvenColDefined(r.graph)   \* documented: all degrees must be even
+      [] OTHER -> FALSE
 
 Verdict(r) ==
     IF r.outcome = "ValueError"
@@ -88,9 +125,23 @@ Verdict(r) ==
     ELSE IF Keys(r) # ExpKeys(Groups(r)) THEN "variables_differ_from_documented"
     ELSE LET V == VarTable(r)
              C == Cands(r)
-         IN  IF \A a \in C : Sat(r, a) <=> Obj(r, V, a) THEN "ok"
-             ELSE IF \E a \in C : Sat(r, a) /\ ~Obj(r, V, a) THEN "model_is_not_an_object"
-             ELSE "object_is_not_a_model"
+         IN  CASE Mode(r) = "pointwise" ->
+                    IF \A a \in C : Sat(r, a) <=> Obj(r, V, a) THEN "ok"
+                    ELSE IF \E a \in C : Sat(r, a) /\ ~Obj(r, V, a) THEN "model_is_not_an_object"
+                    ELSE "object_is_not_a_model"
+               [] Mode(r) = "projection" ->
+                    IF Has(r, "cand")
+                    THEN (IF \A a \in C : Sat(r, a) => IsWitness(r, Proj(r, V, a)) THEN "ok"
+                          ELSE "model_is_not_an_object")
+                    ELSE LET P == {Proj(r, V, a) : a \in {b \in C : Sat(r, b)}}
+                         IN  IF P = Witnesses(r) THEN "ok"
+                             ELSE IF P \ Witnesses(r) # {} THEN "model_is_not_an_object"
+                             ELSE "object_is_not_a_model"
+               [] Mode(r) = "satonly" ->
+                    IF Has(r, "cand") THEN "ok"
+                    ELSE IF (\E a \in C : Sat(r, a)) <=> HasWitness(r) THEN "ok"
+                    ELSE IF HasWitness(r) THEN "unsatisfiable_but_witness_exists"
+                    ELSE "satisfiable_without_witness"
 
 Init == i = 1
 Next == /\ i <= Len(Trace)
